@@ -441,7 +441,8 @@ func ruleVersGroup(p *Prog, r *Report) {
 				continue
 			}
 			next, _ := lf.o.val.(map[string]any)
-			for k, ti := range c.terms {
+			for _, k := range c.termKeys() {
+				ti := c.terms[k]
 				_ = ti
 				if !strings.HasSuffix(k, "[i].operator") {
 					continue
@@ -482,7 +483,8 @@ func ruleVersGroup(p *Prog, r *Report) {
 		return -1
 	}
 	seq := ""
-	for k, ti := range c.terms {
+	for _, k := range c.termKeys() {
+		ti := c.terms[k]
 		if ti.kind == akPresence {
 			seq = strings.TrimPrefix(k, "present:")
 		}
